@@ -204,10 +204,53 @@ def _shard(arg):
     return acc
 
 
+def boundary_grid():
+    """deterministic part: every head word in front of one expression per distinct (alphabetic) first token, every
+    tail word behind one expression per distinct shape of the last token (digits abstracted) - the places where a
+    pattern without a word boundary shows"""
+    import re as _re
+    first, last = {}, {}
+    for o, e, ts in expressions():
+        if "#" in e:
+            continue
+        t = O.N(e).lower().split(" ")
+        if t[0][:1].isalpha():
+            first.setdefault(t[0], (o, e, ts))
+        last.setdefault(_re.sub(r"\d+", "d", t[-1]), (o, e, ts))
+    items = []
+    for k in sorted(first):
+        for w in HEAD_WORDS:
+            items.append(first[k] + (w, ""))
+    for k in sorted(last):
+        for w in TAIL_WORDS:
+            items.append(last[k] + ("", w))
+    return items
+
+
+def _grid_shard(arg):
+    pid, items = arg
+    acc = core.Acc(pid)
+    for i, (origin, expr, ts, prefix, suffix) in enumerate(items):
+        if gen.seq_stats(expr)[1] > 300 or library_matches(prefix or suffix)[1]:
+            acc.notes["grid-skipped(word not inert alone or too many sequences)"] += 1
+            continue
+        latent = bool(i % 2)
+        status, r = check(expr, ts, prefix, suffix, latent)
+        if status != "ok" and status != "fail":
+            acc.notes["grid-" + (status if status == "redraw" else str(r))] += 1
+            continue
+        acc.case((expr, prefix, suffix, ts, latent), nontrivial=True, cls=["boundary-grid", "head-word" if prefix else "tail-word"],
+                 sample={"expr": expr, "prefix": prefix, "suffix": suffix, "ts": ts.isoformat(), "latent_time": latent})
+        if r:
+            acc.fail(r[0], {"expr": expr, "prefix": prefix, "suffix": suffix, "ts": ts.isoformat(), "latent": latent}, r[1])
+    return acc
+
+
 def run(ctx):
     n = 120000 if ctx.thorough else int(os.environ.get("QAV_N", 6400))
     shards = 32 if ctx.thorough else 16
     acc = core.pmap_acc(ctx.pid, _shard, [(ctx.pid, ctx.seed, n // shards, i) for i in range(shards)])
+    acc.merge(core.pmap_acc(ctx.pid, _grid_shard, [(ctx.pid, p) for p in core.chunks(boundary_grid(), 32)]))
     return core.finish(ctx, acc, RULE, assumptions=[
         "inertness is decided with the library's own patterns on each context word alone and on the context without the expression",
         "expressions that are not recognised alone are skipped (counted in notes); expressions containing '#' are C10's business",
